@@ -33,10 +33,10 @@ type budget struct {
 
 // cases are per shard
 var budgets = map[string]budget{
-	"C12": {14, 60, 2500, 1200},
-	"C18": {6, 75, 700, 1500},
-	"C20": {8, 75, 900, 1500},
-	"C10": {10, 75, 1200, 1500},
+	"C12": {200, 60, 12000, 1500},
+	"C18": {100, 60, 6000, 1800},
+	"C20": {150, 60, 10000, 1800},
+	"C10": {200, 60, 12000, 1500},
 }
 
 func main() {
@@ -204,12 +204,8 @@ func main() {
 	if harness > 0 || total.FidelityMism > 0 || total.SelfTestMism > 0 || total.Counters["rapid_harness_failure"] > 0 {
 		fmt.Fprintf(os.Stderr, "simcheck: harness trouble: shards_failed=%d fidelity_mismatches=%d selftest_mismatches=%d rapid=%d\n",
 			harness, total.FidelityMism, total.SelfTestMism, total.Counters["rapid_harness_failure"])
-		for _, s := range total.Samples {
-			if m, ok := s.(map[string]any); ok {
-				if msg, ok := m["fidelity_mismatch"]; ok {
-					fmt.Fprintf(os.Stderr, "  fidelity: %v args=%v\n", msg, m["args"])
-				}
-			}
+		for _, m := range total.FidelityMsgs {
+			fmt.Fprintf(os.Stderr, "  fidelity: %s\n", m)
 		}
 		bins.Cleanup()
 		os.RemoveAll(tmp)
@@ -270,6 +266,7 @@ func merge(t, s *sim.Stats) {
 	t.SelfTestMism += s.SelfTestMism
 	t.FidelityWorlds += s.FidelityWorlds
 	t.FidelityMism += s.FidelityMism
+	t.FidelityMsgs = append(t.FidelityMsgs, s.FidelityMsgs...)
 	t.Violations = append(t.Violations, s.Violations...)
 	if s.WallS > t.WallS {
 		t.WallS = s.WallS
